@@ -743,7 +743,7 @@ func Run(cfg hx.Config) error {
 	// concurrent Index calls on one deployment (direct checks only)
 	q := ctrl.NewSession(r)
 	q.Quiet = true
-	for i, n := 0, cfg.N(400, 4000); i < n && !r.Stop() && !q.Lost; i++ {
+	for i, n := 0, cfg.N(250, 4000); i < n && !r.Stop() && !q.Lost; i++ {
 		concurrent(r, q, rnd)
 	}
 	r.Notes["store"] = "in-memory indexer.Store (go/internal/memstore) following datastore/postgres method by method; every method atomic"
